@@ -3,3 +3,5 @@ import DV.Model.Tab
 import DV.Gen.Tableaux
 import DV.Gen.Hermite
 import DV.Model.Proto
+import DV.Model.Trees
+import DV.Model.Richardson
